@@ -46,8 +46,7 @@ Definition opts_ok2 (ps : pstate) (o : genopts) : Prop :=
 
 Lemma opts_ok_2 ps o : opts_ok ps o -> opts_ok2 ps o.
 Proof.
-  intros (A & B & C & D). repeat split; try assumption.
-  destruct (g_stop o); try exact I; try exact D; contradiction.
+  intros (A & B & C & D). repeat split; assumption.
 Qed.
 
 Lemma stop_no_match2 ps o k a p e pre post : opts_ok2 ps o ->
